@@ -312,6 +312,7 @@ class Unit:
                 body = re.sub(r'///[^\n]*', '', body)
                 body = re.sub(r'#\[[^\]]*\]', '', body)
                 body = body.replace('pub(crate)', 'pub')
+                body = re.sub(r'(?m)^(\s*)(?!pub\b)([A-Za-z_][A-Za-z0-9_]*\s*:)', r'\1pub \2', body)
                 body = apply_rewrites(it, body, rewrites_log)
                 emit(['// ---- %s %s  <- %s:%d (R9: attributes/doc comments/visibility stripped)' % (it.attrs.get('kw', 'struct'), it.attrs['name'], real['file'], real['line'])], kind='marker')
                 emit(it.contract, kind='unit', unit_line=it.lineno)
